@@ -654,6 +654,9 @@ Section Cells.
           apply IH; [cbn in Hn; lia|exact H1|exact H2].
   Qed.
 
+  Lemma skipn_app_len' {A} (a b : list A) : skipn (List.length a) (a ++ b) = b.
+  Proof. induction a as [|x r IH]; [reflexivity|exact IH]. Qed.
+
   (* ---- keywords whose arguments are read up to the next non-numeric token
           (FILL = n (...), TRCL = (...)): reading them is local as long as the
           token that follows does not start like a number ---- *)
@@ -685,6 +688,83 @@ Section Cells.
     intros H1 H2 H3 H4 Hp Hfp rest Hr k. unfold kw_step. rewrite H1, H2, H3, H4.
     unfold parse_trcl. rewrite (take_numeric_app params rest Hp Hr), Hfp. cbn [bind].
     eexists. reflexivity.
+  Qed.
+
+  (* ---- the lattice form FILL = i:j ... u u u (params) ---- *)
+
+  (* a universe entry written as a plain number *)
+  Definition plain_value (t : string) : Prop :=
+    (exists x, tf P (lower t) = Some x) /\ plain (lower t).
+
+  (* expand_data_card(tokens, expected = n) on n plain numbers followed by
+     anything: the n numbers, n tokens consumed *)
+  Lemma expand_loop_plain u : forall more acc consumed size,
+    Forall plain_value u ->
+    (Z.of_nat (List.length acc + List.length u) = size)%Z ->
+    exists vals,
+      expand_loop Sc P (u ++ more) O (Some size) acc consumed
+      = Ok (vals ++ acc, (consumed + List.length u)%nat) /\ List.length vals = List.length u.
+  Proof.
+    induction u as [|t r IH]; intros more acc consumed size Hu Hsz.
+    - exists []. cbn [app List.length]. rewrite Nat.add_0_r. split; [|reflexivity].
+      destruct more as [|m0 more']; [reflexivity|]. cbn [expand_loop reached].
+      replace (Z.of_nat (List.length acc) <? size)%Z with false; [reflexivity|].
+      symmetry. apply Z.ltb_ge. cbn [List.length] in Hsz. lia.
+    - inversion Hu as [|? ? [[x Hx] Hp] Hr]; subst. cbn [app expand_loop reached].
+      replace (Z.of_nat (List.length acc) <? Z.of_nat (List.length acc + List.length (t :: r)))%Z with true
+        by (symmetry; apply Z.ltb_lt; cbn [List.length]; lia).
+      cbn [negb]. rewrite (step_val Sc P _ _ _ _ Hx Hp). cbn [bind].
+      destruct (IH more (Some x :: acc) (consumed + 1 + 0)%nat
+                   (Z.of_nat (List.length acc + List.length (t :: r))) Hr) as (vals & Hv & Hl).
+      { cbn [List.length]. lia. }
+      exists (vals ++ [Some x]). rewrite Hv. split.
+      + rewrite <- app_assoc. cbn [app List.length]. f_equal. f_equal. lia.
+      + rewrite app_length, Hl. cbn [List.length]. lia.
+  Qed.
+
+  Lemma take_ranges_app rs rest :
+    forallb (contains_char ":") rs = true ->
+    match rest with [] => True | t :: _ => contains_char ":" t = false end ->
+    take_ranges (rs ++ rest) = rs.
+  Proof.
+    intros Hr Hh. induction rs as [|x r IH]; cbn [app take_ranges].
+    - destruct rest as [|t r']; [reflexivity|]. cbn. rewrite Hh. reflexivity.
+    - cbn in Hr. apply andb_true_iff in Hr. destruct Hr as [H1 H2]. rewrite H1, IH; auto.
+  Qed.
+
+  (* FILL = ranges, as many plain universe numbers as the ranges hold, numeric
+     parameters: read locally *)
+  Lemma fillarr_local t r0 rs u0 us params bnds fp :
+    String.prefix "imp" t = false -> contains_sub "fill" t = true ->
+    forallb (contains_char ":") (r0 :: rs) = true -> parse_ranges (r0 :: rs) = Ok bnds ->
+    contains_char ":" u0 = false -> Forall plain_value (u0 :: us) ->
+    Z.of_nat (List.length (u0 :: us)) = bounds_size bnds ->
+    forallb is_numstart params = true ->
+    fill_params Sc P false (contains_char "*" t) params = Ok fp ->
+    forall rest, hd_not_num rest -> forall k,
+      exists k', kw_step Sc P t (((r0 :: rs) ++ (u0 :: us) ++ params) ++ rest) k
+                 = Ok (k', List.length ((r0 :: rs) ++ (u0 :: us) ++ params)).
+  Proof.
+    intros H1 H2 Hrs Hpr Hu0 Hus Hsz Hp Hfp rest Hr k. unfold kw_step. rewrite H1, H2.
+    unfold parse_fill.
+    replace (((r0 :: rs) ++ (u0 :: us) ++ params) ++ rest)
+      with ((r0 :: rs) ++ ((u0 :: us) ++ (params ++ rest))) by (rewrite <- !app_assoc; reflexivity).
+    assert (contains_char ":" r0 = true) as Hr0 by (cbn in Hrs; apply andb_true_iff in Hrs; exact (proj1 Hrs)).
+    cbn [app]. rewrite Hr0.
+    change (r0 :: rs ++ u0 :: us ++ params ++ rest) with ((r0 :: rs) ++ (u0 :: us ++ params ++ rest)).
+    rewrite (take_ranges_app (r0 :: rs) (u0 :: us ++ params ++ rest) Hrs Hu0).
+    rewrite skipn_app_len', Hpr. cbn [bind].
+    destruct (expand_loop_plain (u0 :: us) (params ++ rest) [] O (bounds_size bnds) Hus) as (vals & Hv & Hl).
+    { cbn [List.length Nat.add]. exact Hsz. }
+    unfold expand. change (u0 :: us ++ params ++ rest) with ((u0 :: us) ++ (params ++ rest)).
+    rewrite Hv. cbn [bind]. rewrite app_nil_r.
+    replace (Z.of_nat (List.length vals) =? bounds_size bnds)%Z with true
+      by (symmetry; apply Z.eqb_eq; rewrite Hl; exact Hsz).
+    cbn [Nat.add bind]. cbv beta iota.
+    replace (Nat.eqb (List.length (u0 :: us)) 0) with false by reflexivity.
+    rewrite skipn_app_len', (take_numeric_app params rest Hp Hr), Hfp. cbn [bind].
+    eexists. f_equal. f_equal. change (r0 :: rs ++ u0 :: us ++ params) with ((r0 :: rs) ++ (u0 :: us) ++ params).
+    rewrite ?app_length. cbn [List.length]. lia.
   Qed.
 
   (* [loc_imps toks es]: as [opt_imps], with every keyword read locally: either
